@@ -124,8 +124,10 @@ def oracle(hist, records):
                                          f"but it started before {k} had finished; reports {order}", None))
         # (9) failures: dependants of a failed task do not run; nothing starts after the failure limit; exit code
         edges = set()
+        pat_edges = set()
         prod_of = {}
-        statics = [u for u in spec["tasks"] if u.get("parent") is None]
+        # collected tasks and the tasks generators always define (also those created after the failure: ee6b73e)
+        statics = [u for u in spec["tasks"]]
         for u in statics:
             for pnode in u["prods"]:
                 prod_of[pnode] = u["id"]
@@ -136,21 +138,35 @@ def oracle(hist, records):
             for q in statics:
                 if q["id"] != u["id"] and set(q["pprods"]) & set(u["pdeps"]):
                     edges.add((q["id"], u["id"]))
-        failed = [t for t, oc in reps if oc == "FAIL"]
-        for f in set(failed):
-            desc, stack = set(), [f]
+                    pat_edges.add((q["id"], u["id"]))
+
+        def below(root, es):
+            desc, stack = set(), [root]
             while stack:
                 a = stack.pop()
-                for (u, v) in edges:
+                for (u, v) in es:
                     if u == a and v not in desc:
                         desc.add(v)
                         stack.append(v)
+            return desc
+        failed = [t for t, oc in reps if oc == "FAIL"]
+        # known finding F38: a task skipped because an ancestor failed has its pattern dependencies resolved at its (skipped)
+        # setup; the re-created DAG no longer connects it to the failed producer, and tasks a generator defines below it afterwards
+        # get no mark. Class: the dependant is a generated task, and every path from the failed task to it runs through the
+        # pattern dependency of a task that was reported SKIP_PREVIOUS_FAILED before the dependant's generator ran.
+        cut = {u for u in byid if outcome.get(u) == "SKIP_PREVIOUS_FAILED" and byid[u]["pdeps"]}
+        for f in set(failed):
+            desc = below(f, edges)
             for d in desc:
-                if stopped or d not in pos or pos[d] < pos[f] or d not in static_ids or f not in static_ids:
+                if stopped or d not in pos or pos[d] < pos[f] or d not in byid or f not in byid:
                     continue
                 if d in starts or outcome[d] != "SKIP_PREVIOUS_FAILED":
+                    gen_d = byid[d].get("parent")
+                    cut_now = {u for u in cut if gen_d is not None and gen_d in pos and pos[u] < pos[gen_d]}
+                    uncut = {e for e in edges if not (e in pat_edges and e[1] in cut_now)}
+                    finding = "F38" if gen_d is not None and cut_now and d not in below(f, uncut) else None
                     bad.append(("failure", f"build {bi}: task {d} depends on task {f}, which FAILED earlier in this build, but it was not skipped "
-                                           f"(outcome {outcome[d]}, body {'ran' if d in starts else 'did not run'}); reports {reps}", None))
+                                           f"(outcome {outcome[d]}, body {'ran' if d in starts else 'did not run'}); reports {reps}", finding))
         mf = (hist.get("kw") or {}).get("max_failures")
         if mf is not None and len(failed) >= mf:
             idx = [i for i, (t, oc) in enumerate(reps) if oc == "FAIL"][int(mf) - 1]
@@ -310,7 +326,21 @@ def corpus():
                                             _t(4, deps=[102], prods=[211], parent=2, uncollectable=True), _t(5, pdeps=[f0], prods=[212])],
                     "perfile": {"2": 20000}, "inputs": {"100": 2, "102": 4}, "version": 0},
            "steps": [["build"], ["build"]]}
-    return [f11, f11b, f13, mix, pers, gf1, gf1, gf2, gf2, aft, aft, meta, unc]
+    # a task fails (early / after writing its product); afterwards a generator defines tasks below it: they are skipped (ee6b73e)
+    late = {"tag": "corpus-defined-below-failed",
+            "spec": {"pats": pats, "tasks": [_t(1, deps=[102], prods=[220], fails="late"), _t(2, deps=[102], prods=[221], fails=True),
+                                             _t(3, cnt=100, pprods=[f0], fails="late"), _t(4, deps=[102], gen=True),
+                                             _t(5, deps=[220], prods=[222], parent=4), _t(6, deps=[221], prods=[223], parent=4),
+                                             _t(7, pdeps=[f0], prods=[224], parent=4), _t(8, deps=[222], prods=[225])],
+                     "perfile": {}, "inputs": {"100": 2, "102": 4}, "version": 0},
+            "steps": [["build"], ["build"]]}
+    # F38 witness: 1 (pattern producer) fails; 2 (pattern consumer, product 101 left over) is skipped; then generator 5 defines 6 <- 101
+    f38 = {"tag": "corpus-F38",
+           "spec": {"pats": pats, "tasks": [_t(1, pprods=[f0], fails=True), _t(2, deps=[100], pdeps=[f0], prods=[101]), _t(5, gen=True),
+                                            _t(6, deps=[101, 105], prods=[106], parent=5)],
+                    "perfile": {}, "inputs": {"100": 12, "105": 17, "101": 5}, "version": 0},
+           "steps": [["build"]]}
+    return [f11, f11b, f13, mix, pers, gf1, gf1, gf2, gf2, aft, aft, meta, unc, late, late] + [f38] * 4
 
 
 def gen_genfail(rng):
